@@ -37,7 +37,10 @@ EXC = {"ValueError": lambda m: ValueError(m), "LinAlgError": lambda m: np.linalg
        "InjectedFault": lambda m: InjectedFault(m), "AttributeError": lambda m: AttributeError(m),
        "TypeError": lambda m: TypeError(m), "KeyError": lambda m: KeyError(m), "IndexError": lambda m: IndexError(m),
        "RuntimeError": lambda m: RuntimeError(m), "AssertionError": lambda m: AssertionError(m),
-       "ZeroDivisionError": lambda m: ZeroDivisionError(m), "OSError": lambda m: OSError(m)}
+       "ZeroDivisionError": lambda m: ZeroDivisionError(m), "OSError": lambda m: OSError(m),
+       # raised without any argument (bare `raise ValueError()`, a failed bare assert)
+       "ValueError()": lambda m: ValueError(), "AssertionError()": lambda m: AssertionError(),
+       "InjectedFault()": lambda m: InjectedFault()}
 
 K = 3
 INIT = None
@@ -204,7 +207,7 @@ def describe(task):
 def expected(task, msg_text):
     (pool_mode, fault_kind, where, exc_name, call_kind) = task
     if fault_kind in ("task", "phase"):
-        return type(EXC[exc_name]("x")), [msg_text]
+        return type(EXC[exc_name]("x")), ([] if exc_name.endswith("()") else [msg_text])
     if call_kind in ("no_donor", "no_donor_partial"):
         return RuntimeError, ["donor"]
     if call_kind in ("list_to_single", "tuple_to_single", "iterator_to_single", "deque_to_single"):
@@ -232,6 +235,8 @@ def plan(ctx):
                 tasks.append((mode, "task", (r, k), "ValueError", "ok"))
         for exc in ("LinAlgError", "InjectedFault"):
             tasks.append((mode, "task", (1, 1), exc, "ok"))
+        for exc in ("ValueError()", "AssertionError()", "InjectedFault()"):
+            tasks.append((mode, "task", (1, 1) if mode != "mp2" else (0, 0), exc, "ok"))
         if mode in ("default", "virtual"):
             # "the original error": every common built-in class must come through unchanged
             for exc in ("AttributeError", "TypeError", "KeyError", "IndexError", "RuntimeError", "AssertionError",
@@ -291,7 +296,7 @@ def run(ctx):
     ctx.cov["exhaustive"] = True
     ctx.cov["rule"] = (
         "fault points: optimisation task (r,k) for every r<3, k<3 x pool mode {default Pool(1), multiprocessing on "
-        "with P=K, P=2, virtual} raising ValueError (LinAlgError and a harness-defined class at (1,1); eight more built-in classes "
+        "with P=K, P=2, virtual} raising ValueError (LinAlgError and a harness-defined class at (1,1); three argument-less exceptions per pool mode; eight more built-in classes "
         "incl. AttributeError/TypeError/KeyError at one point each for Pool(1) and virtual; thorough: 3 more points); phase fault at every (round<3, phase in repop/stats/opt/relabel) and in the three metric "
         "functions x {default, P=K}; no-donor (no donor at all; one donor that can serve only two of three needy clusters), joint-style input (list, tuple, iterator, deque of arrays) to ticc_labels, array to ticc_joint_labels x {default, P=K}. "
         "Each scenario in its own fresh process with a 60 s watchdog: expected exception type and message, no "
